@@ -68,7 +68,7 @@ PROPS = {
         level_text="Histories of up to 25 (thorough 60) steps - set with every assignment operator, declare, reads through a capturing host function, host writes of "
                    "any type under any name (type changes included) and host reads - are run one statement per Next call on a recording Storer and on the "
                    "library's InMemoryStorer. After every step: Next erred exactly when the model says so; GetValues equals the model; GetValue, Contains and "
-                   "GetValues agree on presence and on a single type per name; a failing statement wrote nothing and a successful one wrote exactly its target once; "
+                   "GetValues agree on presence and on a single type per name; a failing statement wrote nothing and a successful one wrote only its target; "
                    "values read by the script are the last ones assigned or written by the host. Exhaustive: operator x current type x assigned type x storer. Search, not proof.",
         level_note="Trusts the map model (assign in harness/model_script_test.go). After a failing statement the harness expects the marker line of the next statement; "
                    "if the runner resumed elsewhere the case would be discarded (counted), not failed.",
